@@ -32,6 +32,7 @@ import Scico.Proofs.StepsOpial
 import Scico.Proofs.StepsOpial2
 import Scico.Proofs.StepsExamples2
 import Scico.Proofs.StepsPDHGAlpha
+import Scico.Proofs.StepsOpial3
 
 set_option linter.unusedSectionVars false
 
@@ -576,6 +577,16 @@ theorem C03_ladmm_converges_findim [FiniteDimensional ℝ X] [FiniteDimensional 
         Filter.atTop (nhds wb) :=
   ladmm_converges_findim H hk s
 
+/-- … and the ProximalADMM iterates `(x_k, z_k, z_k^old, u_k)` (general `B`, `c`; strict documented constraints `μ > ‖A‖²`,
+    `ν > ‖B‖²`) converge from EVERY start to a KKT point (`Ax̄ + Bz̄ = c`, `−ρAᵀū ∈ ∂f(x̄)`, `−ρBᵀū ∈ ∂g(z̄)`) -/
+theorem C03_padmm_converges_findim [FiniteDimensional ℝ X] [FiniteDimensional ℝ Z] [FiniteDimensional ℝ U]
+    {p : PADMMParams ℝ X Z U} {F : Fn X} {G : Fn Z} {La Lb : ℝ} (H : PADMMConvHyp p F G La Lb)
+    (hk : ∃ w, IsPKKT p F G w) (s : PADMMState X Z U) :
+    ∃ wb : X × Z × Z × U, IsPKKT p F G wb ∧
+      Filter.Tendsto (fun k => ((iter (padmmSpecStep p) k s).x, (iter (padmmSpecStep p) k s).z,
+        (iter (padmmSpecStep p) k s).zOld, (iter (padmmSpecStep p) k s).u)) Filter.atTop (nhds wb) :=
+  padmm_converges_findim H hk s
+
 /-- PDHG with ANY extrapolation parameter `alpha` (documented range `[0,1]`), linear `C`: the Fejér inequality of
     `C03_pdhg_fejer` holds up to the explicit defect `2(1−α)⟪z⁺ − z*, C(x − x⁺)⟫`, which vanishes for `alpha = 1` -/
 theorem C03_pdhg_alpha_defect (p : PDHGParams ℝ X Z) (F : Fn X) (xs : X) (zs : Z) (H : PDHGHypA p F xs zs)
@@ -664,6 +675,9 @@ example [FiniteDimensional ℝ X] (y0 : X) :
 example [FiniteDimensional ℝ X] (y0 : X) :
     LADMMConvHyp (exLADMM y0) (halfSq y0) zeroFn 1 ∧ IsLKKT (exLADMM y0) (halfSq y0) zeroFn (y0, y0, 0) :=
   ⟨exLADMM_conv y0, exLADMM_kkt y0⟩
+example [FiniteDimensional ℝ X] (y0 : X) :
+    PADMMConvHyp (exPADMM2 y0) (halfSq y0) zeroFn 1 1 ∧ IsPKKT (exPADMM2 y0) (halfSq y0) zeroFn (y0, y0, y0, 0) :=
+  ⟨exPADMM2_conv y0, exPADMM2_kkt y0⟩
 -- strong convexity on the instances: `∂(½‖·−y0‖²)` is 1-strongly monotone; function form for FISTA
 example (y0 : X) : StrongSub (halfSq y0) 1 := halfSq_strong y0
 example (y0 : X) : GradStrongConvex (exPGM y0).f (exPGM y0).gradf 1 := by
